@@ -85,7 +85,7 @@ class Identifier(ASTNode):
         return identifier
 
     def __deepcopy__(self, memo):
-        identifier = Identifier(parts=copy(self.parts))
+        identifier = Identifier(parts=deepcopy(self.parts, memo))
         identifier.alias = deepcopy(self.alias)
         identifier.parentheses = self.parentheses
         if hasattr(self, 'sub_select'):
